@@ -152,10 +152,15 @@ ArityOK(d, ap) == IF d.va THEN Len(ap) >= Len(d.params) ELSE Len(ap) = Len(d.par
 \*                enclosing invocation of M is being replaced, other than directly in an argument
 \*                of a source-line invocation of M
 \*   strva        # applied to __VA_ARGS__ holding two or more arguments
+\* Two more events only serve the sanity invariant NoResidual (they are not input classes):
+\*   ~vanish      a replacement produced no token;   ~lparen   a replacement begins with "("
+Book == {"~vanish", "~lparen"}
+ClassEv(ev) == ev \ Book
 R(ts, ev) == [ts |-> ts, ev |-> ev]
 Cons(T, r) == [ts |-> <<T>> \o r.ts, ev |-> r.ev]
 WithEv(e, r) == [ts |-> r.ts, ev |-> r.ev \cup e]
 Ev(c, e) == IF c THEN {e} ELSE {}
+Shape(ts) == Ev(ts = <<>>, "~vanish") \cup (IF ts # <<>> /\ ts[1].t = "(" THEN {"~lparen"} ELSE {})
 
 ArgPaint(D, hs, ts) ==
   \E i \in 1..Len(ts) : /\ ts[i].c = "i" /\ ts[i].t \in DOMAIN D /\ ~D[ts[i].t].fn
@@ -220,7 +225,7 @@ Expand(D, ts, encl) ==
     ELSE LET d == D[T.t] IN
       IF ~d.fn
       THEN LET s == Subst(D, d.body, [m |-> T.t, d |-> d, ap |-> <<>>, hs |-> T.hs \cup {T.t}, encl |-> encl, empty |-> FALSE], <<>>, {})
-           IN WithEv(s.ev, Expand(D, s.ts \o rest, encl))
+           IN WithEv(s.ev \cup Shape(s.ts), Expand(D, s.ts \o rest, encl))
       ELSE IF rest = <<>> \/ Head(rest).t # "(" THEN Cons(T, Expand(D, rest, encl))
       ELSE LET close == MatchParen(rest, 1) IN
         IF close = 0 THEN R(<<Tok("$U")>>, {})
@@ -234,7 +239,8 @@ Expand(D, ts, encl) ==
              IN IF ~ArityOK(d, ap) THEN R(<<Tok("$A")>>, {})
                 ELSE IF lost # {} /\ Reach(D, {s.ts[i].t : i \in 1..Len(s.ts)}) \cap lost # {}
                   THEN R(<<Tok("$X")>>, {})
-                ELSE WithEv(s.ev \cup Ev(InSeq(T.t, encl) /\ encl # <<T.t>>, "hidearg"), Expand(D, s.ts \o after, encl))
+                ELSE WithEv(s.ev \cup Shape(s.ts) \cup Ev(InSeq(T.t, encl) /\ encl # <<T.t>>, "hidearg"),
+                            Expand(D, s.ts \o after, encl))
 
 (***************************************************************************)
 (* The state machine: one step per source line.                            *)
@@ -285,15 +291,15 @@ OutOfDomain(line) == HasMarker(line.ts)
 
 \* No replaceable macro name is left in the output: an object-like name survives only if it
 \* is in its own hide set; a function-like name that is not in its own hide set is never left
-\* directly before a "(" of the same origin (same hide set: both from the source line or both
-\* from one replacement list).  A "(" of another origin need not make an invocation: it may come
-\* from a later replacement (`#define LP (` / `F LP 1 )`) or have become adjacent only because
-\* what stood between vanished (`#define E` / `F E ( 1 )`) -- the name was already passed.
-NoResidualIn(D, line) ==
+\* directly before a "(" -- unless that "(" came to stand there after the name had been passed:
+\* it begins a later replacement (`#define LP (` / `F LP 1 )`) or what stood between vanished
+\* (`#define E` / `F E ( 1 )`); lines on which such a replacement happened are exempt.
+NoResidualIn(D, line, ev) ==
   \A i \in 1..Len(line) :
     (line[i].c = "i" /\ line[i].t \in DOMAIN D /\ line[i].t \notin line[i].hs)
-      => (D[line[i].t].fn /\ ~(i < Len(line) /\ line[i + 1].t = "(" /\ line[i + 1].hs = line[i].hs))
-NoResidual == out # <<>> /\ ~OutOfDomain(Last(out)) => NoResidualIn(defs, Last(out).ts)
+      => /\ D[line[i].t].fn
+         /\ (ev \cap Book = {}) => ~(i < Len(line) /\ line[i + 1].t = "(")
+NoResidual == out # <<>> /\ ~OutOfDomain(Last(out)) => NoResidualIn(defs, Last(out).ts, Last(out).ev)
 
 \* hide sets only ever name macros
 HideSetsAreNames == out # <<>> => \A j \in 1..Len(Last(out).ts) : Last(out).ts[j].hs \subseteq DOMAIN defs
